@@ -176,3 +176,21 @@ def foreign_null_scenarios(rich: bool) -> list[dict]:
                     out.append({"mode": mode, "callers": [c],
                                 "events": [{"t": t_null, "ev": "foreign", "of": 1, "what": "null_otherctl", "hops": 0}]})
     return out
+
+
+def twin_scenarios(rich: bool) -> list[dict]:
+    """Two callers with *equal* commands (distinct Command objects, identical frames): the first in flight with its
+    answers lost (or late), the second queued behind it and giving up - or not - meanwhile.  What happens to the one
+    must not be taken for the other."""
+    out = []
+    lost = [{"echo": None, "reply": None}]
+    late = [{"echo": None, "reply": None}, {"echo": 0.01, "reply": 0.05}]
+    for mode in ((None, False) if rich else (False,)):
+        for kind in (("RQ", "I", "LOG") if rich else ("RQ", "I")):
+            for mr in ((0, 1, 3) if rich else (3,)):
+                for tx1 in (lost, late):
+                    for to2, outer2 in ((0.7, None), (20.0, 0.7), (20.0, None)) + (((0.2, None),) if rich else ()):
+                        a = caller(1, 0.0, kind, 1, 0, mr, 20.0, True, tx1)
+                        b = caller(2, 0.1, kind, 1, 0, mr, to2, True, [{"echo": 0.01, "reply": 0.05}], outer=outer2)
+                        out.append({"mode": mode, "callers": [a, b], "events": []})
+    return out
